@@ -24,6 +24,18 @@ def multisets(types, k):
     return [list(c) for c in itertools.combinations_with_replacement(types, k)]
 
 
+ROW_ORDERS = [None, None, {"baseline": "reversed"}, {"baseline": "scattered", "feed": "reversed"}]
+
+
+def rotate_row_orders(cases):
+    """The row order of the two input files carries no information: every 4-cycle of scenarios gets the files sorted by
+    unit id (twice), the baseline file reversed, and both files shuffled (in place, deterministic by case index)."""
+    for i, c in enumerate(cases):
+        if isinstance(c, dict) and isinstance(c.get("cfg"), dict) and ROW_ORDERS[i % 4]:
+            c["cfg"] = dict(c["cfg"], row_order=ROW_ORDERS[i % 4])
+    return cases
+
+
 def build_units(case):
     """Expand a compact case descriptor into the full unit list (deterministic)."""
     cfg = case["cfg"]
